@@ -222,9 +222,9 @@ class JsonResource(Resource):
             else:
                 if feature.containment:
                     containments.append((feature, value))
-                elif owning_feature and feature.eOpposite is not owning_feature:
-                    ereferences.append((feature, value))
-                elif not feature.eOpposite:
+                elif not owning_feature \
+                        or feature.eOpposite is not owning_feature:
+                    # every reference but the container end
                     ereferences.append((feature, value))
         self.process_inst(inst, eattributes)
         self.process_inst(inst, containments, owning_feature)
